@@ -6,7 +6,7 @@ from core import hx, exc_name
 from gen import unicode_char
 
 ID = 'C09'
-MODULES = ['Httoop.Props.C09']
+MODULES = ['Httoop.Props.C09', 'Httoop.Props.C09Roundtrip']
 THEOREMS = [
 	'Httoop.Element.dropLone_escape',
 	'Httoop.Element.param_roundtrip_partial',
@@ -14,6 +14,8 @@ THEOREMS = [
 	'Httoop.Element.c09_double_backslash_witness',
 	'Httoop.Element.c09_quote_witness',
 	'Httoop.Element.element_tables',
+	'Httoop.Element.element_roundtrip',
+	'Httoop.Element.c09_element_witness',
 ]
 TRUSTED = [
 	'the two splitting regexes are modelled as "split at the separator when an even number of double quotes follows" (pattern texts pinned by C08.header_tables); re.sub(b"\\\\\\\\(?!\\\\\\\\)", b"", s) by dropLoneBackslashes',
@@ -254,6 +256,7 @@ def finding_still_fails(k):
 
 LEVEL_TEXT = ('Theorems for ALL ASCII parameter values without double quote and without two adjacent backslashes (any length, every other separator, inner whitespace): the escaping written by formatparam is undone by the parser\'s re.sub '
 	'(dropLone_escape), a single formatted parameter parses back to its name and value (param_roundtrip_partial), and every formatted parameter carries an even number of double quotes, which is the invariant that keeps ";" and "," '
-	'inside quoted values from splitting (formatParam_quotes_even). The excluded shapes are exhibited on the model by kernel-evaluated witnesses (F20). Whole elements, lists, extended (RFC 5987) parameters and the four element '
-	'classes are tied by correspondence and judged by the compose-parse oracle.')
+	'inside quoted values from splitting (formatParam_quotes_even). The excluded shapes are exhibited on the model by kernel-evaluated witnesses (F20). The whole element is a theorem as well (element_roundtrip): a value with ANY number of such parameters under pairwise '
+	'different canonical keys composes to a text that parses back to the same value and the same parameters in the same order (c09_element_witness: three parameters, one quoted with ";" and "," inside). Lists, extended (RFC 5987) parameters, '
+	'RFC 2231 continuations and the four element classes are tied by correspondence and judged by the compose-parse oracle.')
 LEVEL_NOTE = 'Trusted: Lean kernel; regex readings pinned by pattern text; extract.py/correspondence. Known findings F20 (quotes / double backslashes), F16 (RFC 2047 padding), F1c (escapes below 0x10) delimit the domain.'
